@@ -245,6 +245,9 @@ pub fn execute(scn: &dyn Scenario, devs: &[Deviation], seed: u64) -> (Outcome, V
     let rt = tokio::runtime::Builder::new_current_thread()
         .enable_time()
         .start_paused(true)
+        // wakes deferred by an exhausted cooperative budget are delivered right after that poll,
+        // not at the next multiple of 61 scheduler ticks (which would depend on the deferral spin)
+        .event_interval(1)
         .rng_seed(tokio::runtime::RngSeed::from_bytes(&seed.to_le_bytes()))
         .build()
         .expect("runtime");
